@@ -5,6 +5,7 @@ package explore
 
 import (
 	"fmt"
+	"hash/fnv"
 	"strings"
 
 	"github.com/elastic/go-libaudit/v2/vshim/sched"
@@ -100,6 +101,18 @@ func trim(s string, n int) string {
 	return s
 }
 
+// countOutcome counts distinct observations without keeping millions of long strings: the first 2000 distinct ones are
+// kept verbatim (samples, reports), later ones by a 64-bit hash of their text.
+func countOutcome(m map[string]int64, obs string) {
+	if _, ok := m[obs]; ok || len(m) < 2000 {
+		m[obs]++
+		return
+	}
+	h := fnv.New64a()
+	_, _ = h.Write([]byte(obs))
+	m[fmt.Sprintf("#%016x", h.Sum64())]++
+}
+
 // Explore runs the DFS.
 func (e *Explorer) Explore() *Result {
 	e.res = &Result{Bound: e.Bound, Exhausted: true, Outcomes: map[string]int64{}, Traces: map[string]struct{}{}}
@@ -136,7 +149,7 @@ func (e *Explorer) explore(prefix []int) {
 	if len(ex.res.Steps) > r.MaxSteps {
 		r.MaxSteps = len(ex.res.Steps)
 	}
-	r.Outcomes[ex.obs]++
+	countOutcome(r.Outcomes, ex.obs)
 	if len(r.Traces) < 200000 {
 		r.Traces[stepsString(ex.res.Steps)] = struct{}{}
 	}
@@ -286,7 +299,7 @@ func (e *Explorer) PileUps() *Result {
 			r := sched.RunWith(e.Horizon, h.Body, strat)
 			obs, f := h.Finish(r)
 			res.Executions++
-			res.Outcomes[obs]++
+			countOutcome(res.Outcomes, obs)
 			if r.Deadlock {
 				f = append(f, Finding{Sig: "deadlock", What: "deadlock in the pile-up schedule at " + label + " (" + release + " release): " + r.DeadlockMsg})
 			}
